@@ -798,3 +798,849 @@ Section Corollaries.
     repeat split; auto. rewrite in_app_iff in *. cbn. intuition.
   Qed.
 End Corollaries.
+
+(* ---- 5.4 frames: what a rule may change of an output variable; disabled variables; stored degrees *)
+Section Frames.
+  Context {T : Type} {N : Num T}.
+  Variable function_eval : engine T -> fnode T -> list (string * T) -> T -> result T.
+  Notation rule_contribution := (rule_contribution function_eval).
+  Notation rules_contribution := (rules_contribution function_eval).
+  Notation blocks_contribution := (blocks_contribution function_eval).
+  Notation pipeline_values := (pipeline_values function_eval).
+  Notation pipeline_fuzzy := (pipeline_fuzzy function_eval).
+  Notation pipeline_outputs := (pipeline_outputs function_eval).
+  Notation process := (process function_eval).
+  Notation firing_degree := (firing_degree function_eval).
+
+  Lemma extend_fuzzy_nil (a : output_var T) : extend_fuzzy a [] = a.
+  Proof. unfold extend_fuzzy, with_fuzzy. rewrite app_nil_r. destruct a; reflexivity. Qed.
+  Lemma extend_fuzzy_twice (a : output_var T) l l' : extend_fuzzy (extend_fuzzy a l) l' = extend_fuzzy a (l ++ l').
+  Proof. unfold extend_fuzzy, with_fuzzy. cbn. rewrite app_assoc. reflexivity. Qed.
+
+  (* a step of the activation stage only APPENDS activated terms to a variable, and nothing to a disabled one *)
+  Definition ov_grow (a a' : output_var T) : Prop :=
+    exists l, a' = extend_fuzzy a l /\ (ov_enabled a = false -> l = []).
+
+  Lemma ov_grow_refl a : ov_grow a a.
+  Proof. exists []. split; [symmetry; apply extend_fuzzy_nil | reflexivity]. Qed.
+  Lemma ov_grow_trans a b c : ov_grow a b -> ov_grow b c -> ov_grow a c.
+  Proof.
+    intros (l & -> & Hl) (l' & -> & Hl'). exists (l ++ l'). split; [apply extend_fuzzy_twice|].
+    intros H. rewrite (Hl H), (Hl' H). reflexivity.
+  Qed.
+  Lemma ov_grow_disabled a a' : ov_grow a a' -> ov_enabled a = false -> a' = a.
+  Proof. intros (l & -> & Hl) H. rewrite (Hl H). apply extend_fuzzy_nil. Qed.
+  Lemma ov_grow_static a a' : ov_grow a a' -> ov_static a' = ov_static a.
+  Proof. intros (l & -> & _). reflexivity. Qed.
+
+  Lemma modify_loop_grow carry imp : forall cs d outs outs',
+    modify_loop carry d imp cs outs = Ok outs' -> Forall2 ov_grow outs outs'.
+  Proof.
+    induction cs as [|c cs IH]; intros d outs outs' H; cbn [modify_loop] in H.
+    - injection H as <-. apply Forall2_refl_of, ov_grow_refl.
+    - destruct (nth_error outs (c_var c)) as [v|] eqn:Hv; [|discriminate].
+      destruct (negb (var_truthy v)); [discriminate|].
+      destruct (ov_enabled v) eqn:Hen; [|exact (IH _ _ _ H)].
+      destruct (nth_error (ov_terms v) (c_term c)) as [t|]; [|discriminate].
+      apply IH in H. refine (Forall2_trans_of _ _ _ _ ov_grow_trans _ H).
+      apply Forall2_update_nth with (v := v); [exact ov_grow_refl | exact Hv |].
+      eexists. split; [reflexivity | intros; congruence].
+  Qed.
+
+  Lemma modify_grow d imp cs outs outs' : modify d imp cs outs = Ok outs' -> Forall2 ov_grow outs outs'.
+  Proof. unfold modify, modify_gen. destruct (is_nil cs); [discriminate|]. apply modify_loop_grow. Qed.
+
+  Lemma rule_contribution_grow (E : engine T) b outs r outs' :
+    rule_contribution E b outs r = Ok outs' -> Forall2 ov_grow outs outs'.
+  Proof.
+    unfold Pipeline.rule_contribution.
+    destruct (rule_loaded r); [|intros H; injection H as <-; apply Forall2_refl_of, ov_grow_refl].
+    destruct (firing_degree E b outs r) as [d|]; cbn [bind]; [|discriminate].
+    destruct (r_enabled r); [apply modify_grow | intros H; injection H as <-; apply Forall2_refl_of, ov_grow_refl].
+  Qed.
+
+  Lemma rules_contribution_grow (E : engine T) b rs : forall outs outs',
+    rules_contribution E b outs rs = Ok outs' -> Forall2 ov_grow outs outs'.
+  Proof.
+    induction rs as [|r rs IH]; intros outs outs' H; cbn [Pipeline.rules_contribution] in H.
+    - injection H as <-. apply Forall2_refl_of, ov_grow_refl.
+    - destruct (rule_contribution E b outs r) as [o|] eqn:H1; cbn [bind] in H; [|discriminate].
+      exact (Forall2_trans_of _ _ _ _ ov_grow_trans (rule_contribution_grow _ _ _ _ _ H1) (IH _ _ H)).
+  Qed.
+
+  Lemma blocks_contribution_grow (E : engine T) bs : forall outs outs',
+    blocks_contribution E outs bs = Ok outs' -> Forall2 ov_grow outs outs'.
+  Proof.
+    induction bs as [|b bs IH]; intros outs outs' H; cbn [Pipeline.blocks_contribution] in H.
+    - injection H as <-. apply Forall2_refl_of, ov_grow_refl.
+    - destruct (b_enabled b); [|exact (IH _ _ H)].
+      destruct (rules_contribution E b outs (b_rules b)) as [o|] eqn:H1; cbn [bind] in H; [|discriminate].
+      exact (Forall2_trans_of _ _ _ _ ov_grow_trans (rules_contribution_grow _ _ _ _ _ H1) (IH _ _ H)).
+  Qed.
+
+  (* defuzzification of a variable changes at most its value and previous value; nothing of a disabled variable *)
+  Lemma output_defuzzify_shape (E : engine T) ov ov' :
+    output_defuzzify function_eval E ov = Ok ov' -> ov_ev ov' = ov_ev ov /\ (ov_enabled ov = false -> ov' = ov).
+  Proof.
+    intros H. split.
+    - unfold output_defuzzify in H. destruct (defuzzify_fields _ _ _ _ _ _ _ _ _) as [st' [x|]]; [discriminate|].
+      injection H as <-. reflexivity.
+    - intros Hen. unfold output_defuzzify in H. rewrite Hen in H. cbn in H. injection H as <-.
+      destruct ov; cbn in *. subst. reflexivity.
+  Qed.
+
+  Lemma pipeline_values_Forall2 (P : output_var T -> output_var T -> Prop) :
+    (forall E ov ov', output_defuzzify function_eval E ov = Ok ov' -> P ov ov') ->
+    forall (E : engine T) todo done outs, pipeline_values E done todo = Ok outs ->
+    exists todo', outs = done ++ todo' /\ Forall2 P todo todo'.
+  Proof.
+    intros HP E. induction todo as [|ov todo IH]; intros done outs H; cbn [Pipeline.pipeline_values] in H.
+    - injection H as <-. exists []. split; [symmetry; apply app_nil_r | constructor].
+    - destruct (output_defuzzify function_eval _ ov) as [ov'|] eqn:H1; cbn [bind] in H; [|discriminate].
+      destruct (IH _ _ H) as (todo' & -> & HF). exists (ov' :: todo'). split; [apply snoc_app|].
+      constructor; [exact (HP _ _ _ H1) | exact HF].
+  Qed.
+
+  (* ---- stored degrees: positions in rules_step / blocks_step *)
+  Lemma rules_step_nth (E : engine T) cj dj im : forall rs ri outs rs' outs' r,
+    rules_step function_eval E cj dj im outs rs = Ok (rs', outs') -> nth_error rs ri = Some r ->
+    exists o1 r' o2,
+      rmap snd (rules_step function_eval E cj dj im outs (firstn ri rs)) = Ok o1 /\
+      rule_step function_eval E cj dj im o1 r = Ok (r', o2) /\ nth_error rs' ri = Some r'.
+  Proof.
+    induction rs as [|r0 rs IH]; intros [|ri] outs rs' outs' r H Hn; cbn in Hn; try discriminate.
+    - injection Hn as ->. cbn [rules_step] in H.
+      destruct (rule_step function_eval E cj dj im outs r) as [[r' o2]|] eqn:H1; cbn [bind fst snd] in H; [|discriminate].
+      destruct (rules_step function_eval E cj dj im o2 rs) as [[rs'' o3]|]; cbn [bind fst snd] in H; [|discriminate].
+      injection H as <- <-. exists outs, r', o2. split; [reflexivity | split; [exact H1 | reflexivity]].
+    - cbn [rules_step] in H.
+      destruct (rule_step function_eval E cj dj im outs r0) as [[r0' o2]|] eqn:H1; cbn [bind fst snd] in H; [|discriminate].
+      destruct (rules_step function_eval E cj dj im o2 rs) as [[rs'' o3]|] eqn:H2; cbn [bind fst snd] in H; [|discriminate].
+      injection H as <- <-. destruct (IH ri o2 rs'' o3 r H2 Hn) as (o1 & r' & o4 & Ha & Hb & Hc).
+      exists o1, r', o4. repeat split; [|exact Hb|exact Hc].
+      cbn [firstn rules_step]. rewrite H1. cbn [bind fst snd].
+      destruct (rules_step function_eval E cj dj im o2 (firstn ri rs)) as [[x y]|]; cbn in *; congruence.
+  Qed.
+
+  Lemma blocks_step_nth (E : engine T) : forall bs bi outs bs' outs' b,
+    blocks_step function_eval E outs bs = Ok (bs', outs') -> nth_error bs bi = Some b ->
+    exists o0,
+      rmap snd (blocks_step function_eval E outs (firstn bi bs)) = Ok o0 /\
+      if b_enabled b then
+        exists rs' o1, rules_step function_eval E (b_conjunction b) (b_disjunction b) (b_implication b) o0 (b_rules b) = Ok (rs', o1)
+                       /\ nth_error bs' bi = Some (set_rules b rs')
+      else nth_error bs' bi = Some b.
+  Proof.
+    induction bs as [|b0 bs IH]; intros [|bi] outs bs' outs' b H Hn; cbn in Hn; try discriminate.
+    - injection Hn as ->. cbn [blocks_step] in H. exists outs. split; [reflexivity|].
+      destruct (b_enabled b).
+      + destruct (rules_step function_eval E _ _ _ outs (b_rules b)) as [[rs' o1]|]; cbn [bind fst snd] in H; [|discriminate].
+        destruct (blocks_step function_eval E o1 bs) as [[bs'' o2]|]; cbn [bind fst snd] in H; [|discriminate].
+        injection H as <- <-. exists rs', o1. split; reflexivity.
+      + destruct (blocks_step function_eval E outs bs) as [[bs'' o2]|]; cbn [bind fst snd] in H; [|discriminate].
+        injection H as <- <-. reflexivity.
+    - cbn [blocks_step firstn] in H |- *.
+      destruct (b_enabled b0).
+      + destruct (rules_step function_eval E _ _ _ outs (b_rules b0)) as [[rs' o1]|]; cbn [bind fst snd] in H |- *; [|discriminate].
+        destruct (blocks_step function_eval E o1 bs) as [[bs'' o2]|] eqn:H2; cbn [bind fst snd] in H; [|discriminate].
+        injection H as <- <-. destruct (IH bi o1 bs'' o2 b H2 Hn) as (o0 & Ha & Hb).
+        exists o0. split; [|exact Hb].
+        destruct (blocks_step function_eval E o1 (firstn bi bs)) as [[x y]|]; cbn in *; congruence.
+      + destruct (blocks_step function_eval E outs bs) as [[bs'' o2]|] eqn:H2; cbn [bind fst snd] in H; [|discriminate].
+        injection H as <- <-. destruct (IH bi outs bs'' o2 b H2 Hn) as (o0 & Ha & Hb).
+        exists o0. split; [|exact Hb].
+        destruct (blocks_step function_eval E outs (firstn bi bs)) as [[x y]|]; cbn in *; congruence.
+  Qed.
+
+  (* ---- Engine.process never changes the input variables, whatever the activation methods *)
+  Section LoopInvariant.
+    Context {S : Type}.
+    Variable ops : rule_ops T S.
+    Variable P : S -> Prop.
+    Hypothesis Hd : forall s i, P s -> P (op_deactivate ops s i).
+    Hypothesis Ha : forall s i d s', P s -> op_activate_with ops s i = Ok (d, s') -> P s'.
+    Hypothesis Ht : forall s i s', P s -> op_trigger ops s i = Ok s' -> P s'.
+    Hypothesis Hs : forall s i d, P s -> P (op_set_degree ops s i d).
+
+    Ltac step H :=
+      repeat (cbn [bind fst snd] in H;
+        match type of H with
+        | context [op_activate_with ops ?s ?i] =>
+            let E := fresh "Ea" in destruct (op_activate_with ops s i) as [[? ?]|] eqn:E; [|discriminate H]
+        | context [op_trigger ops ?s ?i] =>
+            let E := fresh "Et" in destruct (op_trigger ops s i) eqn:E; [|discriminate H]
+        | context [assert_is_not_vector ops ?s ?i] => destruct (assert_is_not_vector ops s i); [|discriminate H]
+        end).
+
+    Lemma general_loop_inv : forall l s s', P s -> general_loop ops l s = Ok s' -> P s'.
+    Proof.
+      induction l as [|i l IH]; intros s s' HP H; cbn [general_loop] in H; [injection H as <-; exact HP|].
+      destruct (op_is_loaded ops _ i); [|eauto]. step H. eauto.
+    Qed.
+    Lemma first_loop_inv n t : forall l a s s', P s -> first_loop ops n t l a s = Ok s' -> P s'.
+    Proof.
+      induction l as [|i l IH]; intros a s s' HP H; cbn [first_loop] in H; [injection H as <-; exact HP|].
+      destruct (op_is_loaded ops _ i); [|eauto]. step H.
+      destruct (first_cond n t a _); [step H|]; eauto.
+    Qed.
+    Lemma threshold_loop_inv c t : forall l s s', P s -> threshold_loop ops c t l s = Ok s' -> P s'.
+    Proof.
+      induction l as [|i l IH]; intros s s' HP H; cbn [threshold_loop] in H; [injection H as <-; exact HP|].
+      destruct (op_is_loaded ops _ i); [|eauto]. step H.
+      destruct (cmp_apply c _ t); [step H|]; eauto.
+    Qed.
+    Lemma heap_collect_inv key : forall l h s h' s', P s -> heap_collect ops key l h s = Ok (h', s') -> P s'.
+    Proof.
+      induction l as [|i l IH]; intros h s h' s' HP H; cbn [heap_collect] in H; [injection H as <- <-; exact HP|].
+      destruct (op_is_loaded ops _ i); [|eauto]. step H.
+      destruct (gtb _ zero); eauto.
+    Qed.
+    Lemma heap_pop_loop_inv : forall fuel n a h s s', P s -> heap_pop_loop ops fuel n a h s = Ok s' -> P s'.
+    Proof.
+      induction fuel as [|fuel IH]; intros n a h s s' HP H; cbn [heap_pop_loop] in H; [injection H as <-; exact HP|].
+      destruct (extract_min h) as [[m rest]|]; [|injection H as <-; exact HP].
+      destruct (a <? n)%Z; [|injection H as <-; exact HP]. step H. eauto.
+    Qed.
+    Lemma prop_collect_inv : forall l acc sum s acc' sum' s', P s -> prop_collect ops l acc sum s = Ok (acc', sum', s') -> P s'.
+    Proof.
+      induction l as [|i l IH]; intros acc sum s acc' sum' s' HP H; cbn [prop_collect] in H; [injection H as <- <- <-; exact HP|].
+      destruct (op_is_loaded ops _ i); [|eauto]. step H.
+      destruct (gtb _ zero); eauto.
+    Qed.
+    Lemma prop_trigger_inv sum : forall acc s s', P s -> prop_trigger ops acc sum s = Ok s' -> P s'.
+    Proof.
+      induction acc as [|i acc IH]; intros s s' HP H; cbn [prop_trigger] in H; [injection H as <-; exact HP|].
+      step H. eauto.
+    Qed.
+    Lemma activate_inv m n s s' : P s -> activate ops m n s = Ok s' -> P s'.
+    Proof.
+      intros HP H. unfold activate, activate_on in H. destruct m.
+      - eapply general_loop_inv; eauto.
+      - eapply first_loop_inv; eauto.
+      - eapply first_loop_inv; eauto.
+      - unfold heap_activate in H. destruct (heap_collect ops _ _ _ s) as [[h s1]|] eqn:E; cbn [bind fst snd] in H; [|discriminate].
+        eapply heap_pop_loop_inv; [|exact H]. eapply heap_collect_inv; eauto.
+      - unfold heap_activate in H. destruct (heap_collect ops _ _ _ s) as [[h s1]|] eqn:E; cbn [bind fst snd] in H; [|discriminate].
+        eapply heap_pop_loop_inv; [|exact H]. eapply heap_collect_inv; eauto.
+      - unfold prop_activate in H. destruct (prop_collect ops _ _ _ s) as [[[acc sum] s1]|] eqn:E; cbn [bind] in H; [|discriminate].
+        eapply prop_trigger_inv; [|exact H]. eapply prop_collect_inv; eauto.
+      - eapply threshold_loop_inv; eauto.
+    Qed.
+  End LoopInvariant.
+
+  Lemma with_rule_inputs (e : engine T) bi ri r : e_inputs (with_rule e bi ri r) = e_inputs e.
+  Proof. unfold with_rule. destruct (nth_error (e_blocks e) bi); reflexivity. Qed.
+
+  Lemma activate_block_inputs (e e' : engine T) bi b :
+    activate_block function_eval e bi b = Ok e' -> e_inputs e' = e_inputs e.
+  Proof.
+    unfold activate_block. destruct (b_activation b) as [m|]; [|discriminate].
+    apply (activate_inv (block_ops function_eval bi) (fun s => e_inputs s = e_inputs e)); [| | | |reflexivity].
+    - intros s i HP. cbn. destruct (get_rule s bi i) as [[? ?]|]; [rewrite with_rule_inputs|]; exact HP.
+    - intros s i d s' HP. cbn. destruct (get_rule s bi i) as [[? ?]|]; [|discriminate].
+      destruct (rule_activate_with _ _ _ s _); cbn; [|discriminate]. intros H; injection H as _ <-.
+      rewrite with_rule_inputs. exact HP.
+    - intros s i s' HP. cbn. destruct (get_rule s bi i) as [[? ?]|]; [|discriminate].
+      destruct (trigger _ _ _) as [[? ?]|]; cbn; [|discriminate]. intros H; injection H as <-.
+      cbn. rewrite with_rule_inputs. exact HP.
+    - intros s i d HP. cbn. destruct (get_rule s bi i) as [[? ?]|]; [rewrite with_rule_inputs|]; exact HP.
+  Qed.
+
+  Lemma activate_blocks_inputs : forall bs (e e' : engine T) bi,
+    activate_blocks function_eval e bi bs = Ok e' -> e_inputs e' = e_inputs e.
+  Proof.
+    induction bs as [|b bs IH]; intros e e' bi H; cbn [activate_blocks] in H; [injection H as <-; reflexivity|].
+    destruct (b_enabled b); [|exact (IH _ _ _ H)].
+    destruct (activate_block function_eval e bi b) as [e1|] eqn:H1; cbn [bind] in H; [|discriminate].
+    rewrite (IH _ _ _ H). exact (activate_block_inputs _ _ _ _ H1).
+  Qed.
+
+  Lemma defuzzify_outputs_inputs : forall (cnt : list (output_var T)) (e e' : engine T) oi,
+    defuzzify_outputs function_eval e oi cnt = Ok e' -> e_inputs e' = e_inputs e.
+  Proof.
+    induction cnt as [|c cnt IH]; intros e e' oi H; cbn [defuzzify_outputs] in H; [injection H as <-; reflexivity|].
+    destruct (nth_error (e_outputs e) oi) as [ov|]; [|discriminate].
+    destruct (output_defuzzify function_eval e ov); cbn [bind] in H; [|discriminate].
+    rewrite (IH _ _ _ H). reflexivity.
+  Qed.
+
+  Theorem frame_inputs (e e' : engine T) : process e = Ok e' -> e_inputs e' = e_inputs e.
+  Proof.
+    unfold Engine.process. cbv zeta.
+    destruct (activate_blocks function_eval _ 0 _) as [e1|] eqn:H1; cbn [bind]; [|discriminate].
+    intros H. rewrite (defuzzify_outputs_inputs _ _ _ _ H), (activate_blocks_inputs _ _ _ _ H1). reflexivity.
+  Qed.
+End Frames.
+
+Section Corollaries2.
+  Context {T : Type} {N : Num T}.
+  Variable function_eval : engine T -> fnode T -> list (string * T) -> T -> result T.
+  Hypothesis fe_ext : forall e1 e2 : engine T,
+    e_inputs e1 = e_inputs e2 -> e_outputs e1 = e_outputs e2 -> function_eval e1 = function_eval e2.
+  Notation rule_contribution := (rule_contribution function_eval).
+  Notation rules_contribution := (rules_contribution function_eval).
+  Notation blocks_contribution := (blocks_contribution function_eval).
+  Notation pipeline_values := (pipeline_values function_eval).
+  Notation pipeline_fuzzy := (pipeline_fuzzy function_eval).
+  Notation pipeline_outputs := (pipeline_outputs function_eval).
+  Notation process := (process function_eval).
+  Notation firing_degree := (firing_degree function_eval).
+
+  Lemma process_ok_pipeline (e e' : engine T) :
+    general_only e -> process e = Ok e' ->
+    exists fz, pipeline_fuzzy e = Ok fz /\ pipeline_values e [] fz = Ok (e_outputs e').
+  Proof.
+    intros Hg Hp. pose proof (process_outputs_eq_pipeline function_eval fe_ext e Hg) as H.
+    unfold process_outputs in H. rewrite Hp in H. cbn [rmap] in H. symmetry in H.
+    unfold Pipeline.pipeline_outputs in H.
+    destruct (pipeline_fuzzy e) as [fz|]; cbn [bind] in H; [|discriminate]. eauto.
+  Qed.
+
+  (* the fuzzy output of every variable after process = the contributions of the enabled blocks' rules, folded in
+     block order then rule order (rules_contribution_app / blocks_contribution_app) from the EMPTY fuzzy set, each rule
+     only appending (rule_contribution_grow); defuzzification changes nothing but value / previous value *)
+  Theorem fuzzy_is_ordered_contributions (e e' : engine T) :
+    general_only e -> process e = Ok e' ->
+    exists fz, blocks_contribution e (map clear_fuzzy (e_outputs e)) (e_blocks e) = Ok fz /\
+               map (@ov_fuzzy T) (e_outputs e') = map (@ov_fuzzy T) fz /\ map ov_ev (e_outputs e') = map ov_ev fz.
+  Proof.
+    intros Hg Hp. destruct (process_ok_pipeline e e' Hg Hp) as (fz & Hf & Hv). exists fz. split; [exact Hf|].
+    destruct (pipeline_values_Forall2 function_eval (fun a a' => ov_ev a' = ov_ev a)
+                (fun E ov ov' H => proj1 (output_defuzzify_shape function_eval E ov ov' H)) e fz [] _ Hv) as (todo' & -> & HF).
+    cbn [app]. pose proof (Forall2_map_eq ov_ev _ _ HF) as Hev. split; [|exact Hev].
+    apply (f_equal (map (@ov_fuzzy T))) in Hev. rewrite !map_map in Hev. exact Hev.
+  Qed.
+
+  (* a disabled output variable keeps value and previous value; its fuzzy output is cleared like the others *)
+  Theorem disabled_variable_untouched (e e' : engine T) i ov :
+    general_only e -> process e = Ok e' ->
+    nth_error (e_outputs e) i = Some ov -> ov_enabled ov = false ->
+    nth_error (e_outputs e') i = Some (clear_fuzzy ov).
+  Proof.
+    intros Hg Hp Hn Hen. destruct (process_ok_pipeline e e' Hg Hp) as (fz & Hf & Hv).
+    pose proof (blocks_contribution_grow function_eval e _ _ _ Hf) as HG.
+    assert (Hn' : nth_error (map clear_fuzzy (e_outputs e)) i = Some (clear_fuzzy ov)) by (rewrite nth_error_map, Hn; reflexivity).
+    destruct (Forall2_nth_error _ _ _ _ _ HG Hn') as (a' & Ha' & Hg').
+    rewrite (ov_grow_disabled _ _ Hg' Hen) in Ha'.
+    destruct (pipeline_values_Forall2 function_eval (fun a a' => ov_enabled a = false -> a' = a)
+                (fun E ov ov' H => proj2 (output_defuzzify_shape function_eval E ov ov' H)) e fz [] _ Hv) as (todo' & -> & HF).
+    destruct (Forall2_nth_error _ _ _ _ _ HF Ha') as (a'' & Ha'' & Hd). cbn [app]. rewrite Ha''. f_equal. apply Hd, Hen.
+  Qed.
+
+  (* what process leaves in the rules of an enabled block: position (bi, ri), `o1` = the contributions before the rule *)
+  Theorem stored_degrees (e e' : engine T) bi ri b r :
+    general_only e -> process e = Ok e' ->
+    nth_error (e_blocks e) bi = Some b -> b_enabled b = true -> nth_error (b_rules b) ri = Some r ->
+    exists o0 o1 b' r',
+      blocks_contribution e (map clear_fuzzy (e_outputs e)) (firstn bi (e_blocks e)) = Ok o0 /\
+      rules_contribution e b o0 (firstn ri (b_rules b)) = Ok o1 /\
+      get_rule e' bi ri = Some (b', r') /\
+      rule_deactivated r' = rule_deactivated r /\
+      if rule_loaded r then
+        firing_degree e b o1 r = Ok (r_degree r') /\ r_triggered r' = r_enabled r && gtb (r_degree r') zero
+      else r_degree r' = zero /\ r_triggered r' = false.
+  Proof.
+    intros Hg Hp Hb Hen Hr. rewrite (process_eq_spec function_eval fe_ext e Hg) in Hp. unfold process_spec in Hp.
+    destruct (blocks_step function_eval e _ (e_blocks e)) as [[bs' o']|] eqn:H1; cbn [bind fst snd] in Hp; [|discriminate].
+    destruct (pipeline_values e [] o'); cbn [bind] in Hp; [|discriminate]. injection Hp as <-.
+    destruct (blocks_step_nth function_eval e _ bi _ _ _ b H1 Hb) as (o0 & Ha & Hbb). rewrite Hen in Hbb.
+    destruct Hbb as (rs' & o1' & H2 & Hn2).
+    destruct (rules_step_nth function_eval e _ _ _ _ ri _ _ _ r H2 Hr) as (o1 & r' & o2 & Hc & Hd & Hn3).
+    exists o0, o1, (set_rules b rs'), r'.
+    rewrite blocks_step_contribution in Ha. rewrite rules_step_contribution in Hc.
+    split; [exact Ha|]. split; [exact Hc|]. split.
+    { unfold get_rule. cbn [e_blocks]. rewrite Hn2. cbn [b_rules set_rules]. rewrite Hn3. reflexivity. }
+    unfold rule_step in Hd. unfold Pipeline.firing_degree.
+    destruct (rule_loaded r).
+    - destruct (rule_activate_with _ _ _ _ r) as [d|]; cbn [bind] in Hd; [|discriminate].
+      destruct (r_enabled r).
+      + destruct (modify d _ _ o1); cbn [bind] in Hd; [|discriminate]. injection Hd as <- _. repeat split.
+      + injection Hd as <- _. repeat split.
+    - injection Hd as <- _. repeat split.
+  Qed.
+End Corollaries2.
+
+(* ================================================================================================ *)
+(* 6. C13: history-freedom, restart, copies (operations of Model/Ops.v)                              *)
+(* ================================================================================================ *)
+Section ListRel2.
+  Context {A B : Type}.
+  Lemma Forall2_in_r (R : A -> B -> Prop) (l : list A) (l' : list B) (b : B) :
+    Forall2 R l l' -> In b l' -> exists a, In a l /\ R a b.
+  Proof.
+    induction 1 as [|a b' l l' HR HF IH]; intros Hin; [contradiction|].
+    destruct Hin as [-> | Hin]; [exists a; split; [left; reflexivity | exact HR]|].
+    destruct (IH Hin) as (a0 & Ha & HR0). exists a0. split; [right; exact Ha | exact HR0].
+  Qed.
+  Lemma map_eq_transfer {C : Type} (f : A -> B) (g : A -> C) (l1 l2 : list A) :
+    (forall a b, f a = f b -> g a = g b) -> map f l1 = map f l2 -> map g l1 = map g l2.
+  Proof.
+    intros H. revert l2; induction l1 as [|a l1 IH]; intros [|b l2] Hm; cbn in *; try discriminate; [reflexivity|].
+    injection Hm as H1 H2. f_equal; auto.
+  Qed.
+End ListRel2.
+
+Section History.
+  Context {T : Type} {N : Num T}.
+  Variable function_eval : engine T -> fnode T -> list (string * T) -> T -> result T.
+  (* Function terms read the input variables and the CONFIGURATION of the output variables, not the output values,
+     previous values or fuzzy outputs (DESIGN C13: refs_well_founded, in its strongest form) *)
+  Hypothesis fe_no_output_values : forall e1 e2 : engine T,
+    e_inputs e1 = e_inputs e2 -> map ov_static (e_outputs e1) = map ov_static (e_outputs e2) ->
+    function_eval e1 = function_eval e2.
+
+  Lemma fe_ext_of_no_output_values : forall e1 e2 : engine T,
+    e_inputs e1 = e_inputs e2 -> e_outputs e1 = e_outputs e2 -> function_eval e1 = function_eval e2.
+  Proof. intros e1 e2 Hi Ho. apply fe_no_output_values; [exact Hi | rewrite Ho; reflexivity]. Qed.
+  Let fe_ext := fe_ext_of_no_output_values.
+
+  Notation tm := (term_membership function_eval).
+  Notation rule_contribution := (rule_contribution function_eval).
+  Notation rules_contribution := (rules_contribution function_eval).
+  Notation blocks_contribution := (blocks_contribution function_eval).
+  Notation pipeline_values := (pipeline_values function_eval).
+  Notation pipeline_fuzzy := (pipeline_fuzzy function_eval).
+  Notation pipeline_outputs := (pipeline_outputs function_eval).
+  Notation process := (process function_eval).
+  Notation process_outputs := (process_outputs function_eval).
+  Notation firing_degree := (firing_degree function_eval).
+
+  (* ---- structure: an engine up to the state that operation leaves in it *)
+  Definition iv_erase (iv : input_var T) : input_var T :=
+    {| iv_name := iv_name iv; iv_enabled := iv_enabled iv; iv_min := iv_min iv; iv_max := iv_max iv;
+       iv_lock_range := iv_lock_range iv; iv_terms := iv_terms iv; iv_value := nan |}.
+  (* erases: input values; ov_value, ov_previous, ov_fuzzy of outputs; r_degree, r_triggered of rules *)
+  Definition erase (e : engine T) : engine T :=
+    {| e_name := e_name e; e_inputs := map iv_erase (e_inputs e); e_outputs := map ov_static (e_outputs e);
+       e_blocks := map (@block_deactivated T N) (e_blocks e) |}.
+  Definition same_structure (e1 e2 : engine T) : Prop := erase e1 = erase e2.
+  Definition no_lock_previous (e : engine T) : Prop := forall ov, In ov (e_outputs e) -> ov_lock_previous ov = false.
+
+  Lemma same_structure_parts (e1 e2 : engine T) : same_structure e1 e2 ->
+    e_name e1 = e_name e2 /\ map iv_erase (e_inputs e1) = map iv_erase (e_inputs e2) /\
+    map ov_static (e_outputs e1) = map ov_static (e_outputs e2) /\
+    map (@block_deactivated T N) (e_blocks e1) = map (@block_deactivated T N) (e_blocks e2).
+  Proof. intros H. injection H as H1 H2 H3 H4. auto. Qed.
+
+  (* what two runs agree on for one output variable: everything but the previous value, and the value when enabled *)
+  Definition ov_same_result (a b : output_var T) : Prop :=
+    ov_ev a = ov_ev b /\ (ov_enabled a = true -> ov_value a = ov_value b).
+
+  (* ---- the activation stage commutes with forgetting value / previous value *)
+  Lemma modify_loop_ev carry imp : forall cs d outs,
+    modify_loop carry d imp cs (map ov_ev outs) = rmap (map ov_ev) (modify_loop carry d imp cs outs).
+  Proof.
+    induction cs as [|c cs IH]; intros d outs; cbn [modify_loop]; [reflexivity|].
+    rewrite nth_error_map. destruct (nth_error outs (c_var c)) as [v|]; cbn [option_map]; [|reflexivity].
+    change (var_truthy (ov_ev v)) with (var_truthy v). destruct (negb (var_truthy v)); [reflexivity|].
+    change (ov_enabled (ov_ev v)) with (ov_enabled v). destruct (ov_enabled v); [|apply IH].
+    change (ov_terms (ov_ev v)) with (ov_terms v). destruct (nth_error (ov_terms v) (c_term c)) as [t|]; [|reflexivity].
+    rewrite <- IH. f_equal. symmetry. apply update_nth_map. reflexivity.
+  Qed.
+
+  Lemma modify_ev d imp cs outs : modify d imp cs (map ov_ev outs) = rmap (map ov_ev) (modify d imp cs outs).
+  Proof. unfold modify, modify_gen. destruct (is_nil cs); [reflexivity | apply modify_loop_ev]. Qed.
+
+  Lemma firing_degree_hf (E1 E2 : engine T) (b1 b2 : block T) outs1 outs2 (r1 r2 : rule T) :
+    e_inputs E1 = e_inputs E2 -> map ov_ev outs1 = map ov_ev outs2 ->
+    b_conjunction b1 = b_conjunction b2 -> b_disjunction b1 = b_disjunction b2 ->
+    rule_deactivated r1 = rule_deactivated r2 ->
+    firing_degree E1 b1 outs1 r1 = firing_degree E2 b2 outs2 r2.
+  Proof.
+    intros HE Ho Hc Hd Hr. unfold Pipeline.firing_degree. rewrite Hc, Hd. injection Hr as He Hw Ha Hq.
+    rewrite (term_membership_cong function_eval (view E1 outs1) (view E2 outs2) HE
+               (fe_no_output_values (view E1 outs1) (view E2 outs2) HE (map_ev_static _ _ Ho))).
+    apply rule_activate_with_cong; auto.
+  Qed.
+
+  Lemma rule_contribution_hf (E1 E2 : engine T) (b1 b2 : block T) outs1 outs2 (r1 r2 : rule T) :
+    e_inputs E1 = e_inputs E2 -> map ov_ev outs1 = map ov_ev outs2 ->
+    b_conjunction b1 = b_conjunction b2 -> b_disjunction b1 = b_disjunction b2 -> b_implication b1 = b_implication b2 ->
+    rule_deactivated r1 = rule_deactivated r2 ->
+    rmap (map ov_ev) (rule_contribution E1 b1 outs1 r1) = rmap (map ov_ev) (rule_contribution E2 b2 outs2 r2).
+  Proof.
+    intros HE Ho Hc Hd Hi Hr. unfold Pipeline.rule_contribution.
+    rewrite (firing_degree_hf E1 E2 b1 b2 outs1 outs2 r1 r2 HE Ho Hc Hd Hr), Hi.
+    injection Hr as He Hw Ha Hq. unfold rule_loaded. rewrite Ha, Hq, He.
+    destruct (r_antecedent r2); [|cbn; congruence]. destruct (r_consequent r2); [cbn; congruence|].
+    destruct (firing_degree E2 b2 outs2 r2) as [d|]; cbn [bind]; [|reflexivity].
+    destruct (r_enabled r2); [|cbn; congruence].
+    rewrite <- !modify_ev, Ho. reflexivity.
+  Qed.
+
+  Lemma rmap_eq_cases {A B : Type} (f : A -> B) (r1 r2 : result A) :
+    rmap f r1 = rmap f r2 ->
+    (exists a b, r1 = Ok a /\ r2 = Ok b /\ f a = f b) \/ (exists x, r1 = Err x /\ r2 = Err x).
+  Proof. destruct r1, r2; cbn; intros H; try discriminate; injection H as H; subst; eauto 6. Qed.
+
+  Lemma rules_contribution_hf (E1 E2 : engine T) (b1 b2 : block T) :
+    e_inputs E1 = e_inputs E2 ->
+    b_conjunction b1 = b_conjunction b2 -> b_disjunction b1 = b_disjunction b2 -> b_implication b1 = b_implication b2 ->
+    forall rs1 rs2 outs1 outs2, map ov_ev outs1 = map ov_ev outs2 ->
+    map (@rule_deactivated T N) rs1 = map (@rule_deactivated T N) rs2 ->
+    rmap (map ov_ev) (rules_contribution E1 b1 outs1 rs1) = rmap (map ov_ev) (rules_contribution E2 b2 outs2 rs2).
+  Proof.
+    intros HE Hc Hd Hi. induction rs1 as [|r1 rs1 IH]; intros rs2 outs1 outs2 Ho Hm.
+    - destruct rs2; [cbn; congruence | discriminate].
+    - destruct (map_eq_cons _ _ _ _ Hm) as (r2 & rs2' & -> & Hr & Hm').
+      cbn [Pipeline.rules_contribution].
+      destruct (rmap_eq_cases _ _ _ (rule_contribution_hf E1 E2 b1 b2 outs1 outs2 r1 r2 HE Ho Hc Hd Hi Hr))
+        as [(a & b & -> & -> & Hab) | (x & -> & ->)]; cbn [bind]; [apply IH; assumption | reflexivity].
+  Qed.
+
+  Lemma blocks_contribution_hf (E1 E2 : engine T) : e_inputs E1 = e_inputs E2 ->
+    forall bs1 bs2 outs1 outs2, map ov_ev outs1 = map ov_ev outs2 ->
+    map (@block_deactivated T N) bs1 = map (@block_deactivated T N) bs2 ->
+    rmap (map ov_ev) (blocks_contribution E1 outs1 bs1) = rmap (map ov_ev) (blocks_contribution E2 outs2 bs2).
+  Proof.
+    intros HE. induction bs1 as [|b1 bs1 IH]; intros bs2 outs1 outs2 Ho Hm.
+    - destruct bs2; [cbn; congruence | discriminate].
+    - destruct (map_eq_cons _ _ _ _ Hm) as (b2 & bs2' & -> & Hb & Hm').
+      cbn [Pipeline.blocks_contribution]. injection Hb as Hn Hen Hc Hd Hi Ha Hrs. rewrite Hen.
+      destruct (b_enabled b2); [|apply IH; assumption].
+      destruct (rmap_eq_cases _ _ _ (rules_contribution_hf E1 E2 b1 b2 HE Hc Hd Hi _ _ outs1 outs2 Ho Hrs))
+        as [(a & b & -> & -> & Hab) | (x & -> & ->)]; cbn [bind]; [apply IH; assumption | reflexivity].
+  Qed.
+
+  (* ---- the defuzzification stage with lock-previous off *)
+  Lemma defuzzifier_value_ev (E : engine T) ov1 ov2 d :
+    ov_ev ov1 = ov_ev ov2 -> defuzzifier_value function_eval E ov1 d = defuzzifier_value function_eval E ov2 d.
+  Proof.
+    intros H. destruct ov1 as [n1 en1 mn1 mx1 lr1 lp1 df1 ag1 dz1 tr1 v1 p1 fz1], ov2 as [n2 en2 mn2 mx2 lr2 lp2 df2 ag2 dz2 tr2 v2 p2 fz2].
+    cbn in H. injection H; intros; subst.
+    destruct d; cbn [defuzzifier_value ov_min ov_max ov_aggregation ov_fuzzy]; reflexivity.
+  Qed.
+
+  Lemma output_defuzzify_hf (E1 E2 : engine T) ov1 ov2 :
+    tm E1 = tm E2 -> ov_ev ov1 = ov_ev ov2 -> ov_lock_previous ov1 = false ->
+    res_rel ov_same_result (output_defuzzify function_eval E1 ov1) (output_defuzzify function_eval E2 ov2).
+  Proof.
+    intros Htm Hev Hlp. rewrite (output_defuzzify_cong function_eval E1 E2 ov1 Htm).
+    unfold output_defuzzify.
+    assert (Hd : forall d, defuzzifier_value function_eval E2 ov1 d = defuzzifier_value function_eval E2 ov2 d)
+      by (intros d; apply defuzzifier_value_ev, Hev).
+    destruct ov1 as [n1 en1 mn1 mx1 lr1 lp1 df1 ag1 dz1 tr1 v1 p1 fz1], ov2 as [n2 en2 mn2 mx2 lr2 lp2 df2 ag2 dz2 tr2 v2 p2 fz2].
+    cbn in Hev, Hlp. injection Hev; intros; subst.
+    cbn [ov_name ov_enabled ov_min ov_max ov_lock_range ov_lock_previous ov_default ov_aggregation ov_defuzzifier
+         ov_terms ov_value ov_previous ov_fuzzy].
+    destruct en2; [|cbn; split; [reflexivity | discriminate]].
+    destruct dz2 as [d|]; [|cbn; reflexivity].
+    rewrite (Hd d). destruct (defuzzifier_value function_eval E2 _ d) as [v|x]; cbn; [|reflexivity].
+    split; reflexivity.
+  Qed.
+
+  Lemma Forall2_same_result_ev (l1 l2 : list (output_var T)) : Forall2 ov_same_result l1 l2 -> map ov_ev l1 = map ov_ev l2.
+  Proof. induction 1 as [|a b l l' [H _] HF IH]; cbn; congruence. Qed.
+
+  Lemma pipeline_values_hf (E1 E2 : engine T) : e_inputs E1 = e_inputs E2 ->
+    forall todo1 todo2 done1 done2, map ov_ev todo1 = map ov_ev todo2 -> Forall2 ov_same_result done1 done2 ->
+    (forall ov, In ov todo1 -> ov_lock_previous ov = false) ->
+    res_rel (Forall2 ov_same_result) (pipeline_values E1 done1 todo1) (pipeline_values E2 done2 todo2).
+  Proof.
+    intros HE. induction todo1 as [|ov1 todo1 IH]; intros todo2 done1 done2 Hm Hdone Hlp.
+    - destruct todo2; [|discriminate]. cbn. exact Hdone.
+    - destruct (map_eq_cons _ _ _ _ Hm) as (ov2 & todo2' & -> & Hov & Hm').
+      cbn [Pipeline.pipeline_values].
+      assert (Htm : tm (with_outputs E1 (done1 ++ ov1 :: todo1)) = tm (with_outputs E2 (done2 ++ ov2 :: todo2'))).
+      { apply term_membership_cong; [exact HE|]. apply fe_no_output_values; [exact HE|].
+        apply map_ev_static. cbn [e_outputs with_outputs]. rewrite !map_app, (Forall2_same_result_ev _ _ Hdone). cbn [map].
+        rewrite Hov, Hm'. reflexivity. }
+      pose proof (output_defuzzify_hf _ _ ov1 ov2 Htm Hov (Hlp ov1 (or_introl eq_refl))) as H.
+      destruct (output_defuzzify function_eval _ ov1) as [ov1'|x], (output_defuzzify function_eval _ ov2) as [ov2'|y];
+        cbn in H; try contradiction; cbn [bind]; [|cbn; exact H].
+      apply IH; [exact Hm' | | intros ov Hin; apply Hlp; right; exact Hin].
+      apply Forall2_app; [exact Hdone | constructor; [exact H | constructor]].
+  Qed.
+
+  Lemma pipeline_fuzzy_no_lock (e : engine T) fz :
+    no_lock_previous e -> pipeline_fuzzy e = Ok fz -> forall ov, In ov fz -> ov_lock_previous ov = false.
+  Proof.
+    intros Hnl Hf ov Hin. pose proof (blocks_contribution_grow function_eval e _ _ _ Hf) as HG.
+    destruct (Forall2_in_r _ _ _ _ HG Hin) as (a & Ha & Hga).
+    apply in_map_iff in Ha. destruct Ha as (a0 & <- & Ha0).
+    pose proof (f_equal (@ov_lock_previous T) (ov_grow_static _ _ Hga)) as H. cbn in H. rewrite H. apply Hnl, Ha0.
+  Qed.
+
+  Lemma pipeline_outputs_hf (e1 e2 : engine T) :
+    no_lock_previous e1 -> same_structure e1 e2 -> e_inputs e1 = e_inputs e2 ->
+    res_rel (Forall2 ov_same_result) (pipeline_outputs e1) (pipeline_outputs e2).
+  Proof.
+    intros Hnl Hs Hi. destruct (same_structure_parts _ _ Hs) as (Hn & _ & Ho & Hb).
+    unfold Pipeline.pipeline_outputs.
+    assert (Hc : map ov_ev (map clear_fuzzy (e_outputs e1)) = map ov_ev (map clear_fuzzy (e_outputs e2)))
+      by (rewrite !map_map; exact Ho).
+    pose proof (blocks_contribution_hf e1 e2 Hi _ _ _ _ Hc Hb) as H.
+    destruct (rmap_eq_cases _ _ _ H) as [(fz1 & fz2 & H1 & H2 & Hfz) | (x & H1 & H2)];
+      unfold Pipeline.pipeline_fuzzy; rewrite H1, H2; cbn [bind]; [|cbn; reflexivity].
+    apply pipeline_values_hf; [exact Hi | exact Hfz | constructor |].
+    exact (pipeline_fuzzy_no_lock e1 fz1 Hnl H1).
+  Qed.
+
+  (* C13: with lock-previous off the outputs of a processing step depend only on the inputs of that step (and the
+     engine's structure): not on earlier values, previous values, fuzzy outputs, stored degrees or flags.
+     A DISABLED output variable keeps its value (disabled_variable_untouched), so only enabled ones are claimed. *)
+  Theorem history_free (e1 e2 : engine T) :
+    general_only e1 -> no_lock_previous e1 -> same_structure e1 e2 -> e_inputs e1 = e_inputs e2 ->
+    res_rel (fun a b => Forall2 ov_same_result (e_outputs a) (e_outputs b)) (process e1) (process e2).
+  Proof.
+    intros Hg Hnl Hs Hi. pose proof (pipeline_outputs_hf e1 e2 Hnl Hs Hi) as H.
+    destruct (same_structure_parts _ _ Hs) as (_ & _ & _ & Hb).
+    rewrite <- (process_outputs_eq_pipeline function_eval fe_ext e1 Hg) in H.
+    rewrite <- (process_outputs_eq_pipeline function_eval fe_ext e2 (general_only_ext e1 e2 Hb Hg)) in H.
+    unfold process_outputs in H. destruct (process e1), (process e2); exact H.
+  Qed.
+
+  (* the values of the enabled output variables, by position *)
+  Definition enabled_values (outs : list (output_var T)) : list (option T) :=
+    map (fun ov => if ov_enabled ov then Some (ov_value ov) else None) outs.
+
+  Lemma same_result_enabled_values (l1 l2 : list (output_var T)) :
+    Forall2 ov_same_result l1 l2 -> enabled_values l1 = enabled_values l2 /\ map (@ov_fuzzy T) l1 = map (@ov_fuzzy T) l2.
+  Proof.
+    induction 1 as [|a b l l' [Hev Hv] HF [IH1 IH2]]; [split; reflexivity|]. unfold enabled_values in *. cbn [map].
+    pose proof (f_equal (@ov_enabled T) Hev) as He. pose proof (f_equal (@ov_fuzzy T) Hev) as Hf. cbn in He, Hf.
+    rewrite <- He, IH1, IH2, Hf. destruct (ov_enabled a); [rewrite (Hv eq_refl)|]; split; reflexivity.
+  Qed.
+
+  Theorem history_free_values (e1 e2 : engine T) :
+    general_only e1 -> no_lock_previous e1 -> same_structure e1 e2 -> e_inputs e1 = e_inputs e2 ->
+    res_rel (fun a b => enabled_values (e_outputs a) = enabled_values (e_outputs b) /\
+                        map (@ov_fuzzy T) (e_outputs a) = map (@ov_fuzzy T) (e_outputs b))
+            (process e1) (process e2).
+  Proof.
+    intros Hg Hnl Hs Hi. pose proof (history_free e1 e2 Hg Hnl Hs Hi) as H.
+    destruct (process e1), (process e2); cbn in *; try exact H. apply same_result_enabled_values, H.
+  Qed.
+
+  (* ---- process keeps the structure *)
+  Lemma rule_step_structure (E : engine T) cj dj im outs r r' o :
+    rule_step function_eval E cj dj im outs r = Ok (r', o) -> rule_deactivated r' = rule_deactivated r.
+  Proof.
+    unfold rule_step. destruct (rule_loaded r); [|intros H; injection H as <- _; reflexivity].
+    destruct (rule_activate_with _ _ _ _ r) as [d|]; cbn [bind]; [|discriminate].
+    destruct (r_enabled r) eqn:He.
+    - destruct (modify d im _ outs); cbn [bind]; [|discriminate]. intros H; injection H as <- _. reflexivity.
+    - intros H; injection H as <- _. reflexivity.
+  Qed.
+
+  Lemma rules_step_structure (E : engine T) cj dj im : forall rs outs rs' o,
+    rules_step function_eval E cj dj im outs rs = Ok (rs', o) ->
+    map (@rule_deactivated T N) rs' = map (@rule_deactivated T N) rs.
+  Proof.
+    induction rs as [|r rs IH]; intros outs rs' o H; cbn [rules_step] in H.
+    - injection H as <- _. reflexivity.
+    - destruct (rule_step function_eval E cj dj im outs r) as [[r' o1]|] eqn:H1; cbn [bind fst snd] in H; [|discriminate].
+      destruct (rules_step function_eval E cj dj im o1 rs) as [[rs'' o2]|] eqn:H2; cbn [bind fst snd] in H; [|discriminate].
+      injection H as <- _. cbn [map]. rewrite (rule_step_structure _ _ _ _ _ _ _ _ H1), (IH _ _ _ H2). reflexivity.
+  Qed.
+
+  Lemma blocks_step_structure (E : engine T) : forall bs outs bs' o,
+    blocks_step function_eval E outs bs = Ok (bs', o) ->
+    map (@block_deactivated T N) bs' = map (@block_deactivated T N) bs.
+  Proof.
+    induction bs as [|b bs IH]; intros outs bs' o H; cbn [blocks_step] in H.
+    - injection H as <- _. reflexivity.
+    - destruct (b_enabled b).
+      + destruct (rules_step function_eval E _ _ _ outs (b_rules b)) as [[rs' o1]|] eqn:H1; cbn [bind fst snd] in H; [|discriminate].
+        destruct (blocks_step function_eval E o1 bs) as [[bs'' o2]|] eqn:H2; cbn [bind fst snd] in H; [|discriminate].
+        injection H as <- _. cbn [map]. rewrite (IH _ _ _ H2). f_equal.
+        unfold block_deactivated. cbn [set_rules b_name b_enabled b_conjunction b_disjunction b_implication b_activation b_rules].
+        rewrite (rules_step_structure _ _ _ _ _ _ _ _ H1). reflexivity.
+      + destruct (blocks_step function_eval E outs bs) as [[bs'' o2]|] eqn:H2; cbn [bind fst snd] in H; [|discriminate].
+        injection H as <- _. cbn [map]. rewrite (IH _ _ _ H2). reflexivity.
+  Qed.
+
+  Theorem process_preserves_structure (e e' : engine T) :
+    general_only e -> process e = Ok e' -> same_structure e e' /\ e_inputs e' = e_inputs e.
+  Proof.
+    intros Hg Hp. pose proof (frame_inputs function_eval e e' Hp) as Hi. split; [|exact Hi].
+    destruct (fuzzy_is_ordered_contributions function_eval fe_ext e e' Hg Hp) as (fz & Hf & _ & Hev).
+    pose proof (blocks_contribution_grow function_eval e _ _ _ Hf) as HG.
+    rewrite (process_eq_spec function_eval fe_ext e Hg) in Hp. unfold process_spec in Hp.
+    destruct (blocks_step function_eval e _ (e_blocks e)) as [[bs' o']|] eqn:H1; cbn [bind fst snd] in Hp; [|discriminate].
+    destruct (pipeline_values e [] o') as [outs|]; cbn [bind] in Hp; [|discriminate]. injection Hp as <-.
+    unfold same_structure, erase. cbn [e_name e_inputs e_outputs e_blocks] in *.
+    rewrite (blocks_step_structure _ _ _ _ _ H1). f_equal.
+    rewrite (map_ev_static _ _ Hev).
+    rewrite (Forall2_map_eq ov_static _ _ (Forall2_impl_of _ _ _ _ (fun a b H => ov_grow_static a b H) HG)).
+    rewrite map_map. reflexivity.
+  Qed.
+
+  Lemma same_result_strengthen (l1 l2 : list (output_var T)) :
+    Forall2 ov_same_result l1 l2 ->
+    (forall i a, nth_error l1 i = Some a -> ov_enabled a = false ->
+                 exists b, nth_error l2 i = Some b /\ ov_value b = ov_value a) ->
+    Forall2 (fun a b => ov_ev a = ov_ev b /\ ov_value a = ov_value b) l1 l2.
+  Proof.
+    induction 1 as [|a b l l' [Hev Hv] HF IH]; intros Hdis; constructor.
+    - split; [exact Hev|]. destruct (ov_enabled a) eqn:Hen; [exact (Hv eq_refl)|].
+      destruct (Hdis 0 a eq_refl Hen) as (b' & Hb' & Hvb). cbn in Hb'. injection Hb' as <-. congruence.
+    - apply IH. intros i a0 Hn Hen. exact (Hdis (S i) a0 Hn Hen).
+  Qed.
+
+  (* processing twice gives the same result: the second run succeeds and reproduces every value and fuzzy output
+     (only previous_value moves on: it becomes the value) *)
+  Theorem process_idempotent_strong (e e1 : engine T) :
+    general_only e -> no_lock_previous e -> process e = Ok e1 ->
+    exists e2, process e1 = Ok e2 /\
+               Forall2 (fun a b => ov_ev a = ov_ev b /\ ov_value a = ov_value b) (e_outputs e1) (e_outputs e2).
+  Proof.
+    intros Hg Hnl Hp. destruct (process_preserves_structure e e1 Hg Hp) as (Hs & Hi).
+    pose proof (history_free e e1 Hg Hnl Hs (eq_sym Hi)) as H. rewrite Hp in H.
+    destruct (process e1) as [e2|] eqn:Hp2; cbn in H; [|contradiction]. exists e2. split; [reflexivity|].
+    destruct (same_structure_parts _ _ Hs) as (_ & _ & _ & Hb).
+    pose proof (general_only_ext e e1 Hb Hg) as Hg1.
+    assert (Hdis : forall i a, nth_error (e_outputs e1) i = Some a -> ov_enabled a = false ->
+                   exists b, nth_error (e_outputs e2) i = Some b /\ ov_value b = ov_value a).
+    { intros i a Hn Hen. exists (clear_fuzzy a). split; [|reflexivity].
+      exact (disabled_variable_untouched function_eval fe_ext e1 e2 i a Hg1 Hp2 Hn Hen). }
+    exact (same_result_strengthen _ _ H Hdis).
+  Qed.
+
+  Theorem process_idempotent (e e1 e2 : engine T) :
+    general_only e -> no_lock_previous e -> process e = Ok e1 -> process e1 = Ok e2 ->
+    map (@ov_value T) (e_outputs e2) = map (@ov_value T) (e_outputs e1) /\
+    map (@ov_fuzzy T) (e_outputs e2) = map (@ov_fuzzy T) (e_outputs e1).
+  Proof.
+    intros Hg Hnl Hp Hp2. destruct (process_idempotent_strong e e1 Hg Hnl Hp) as (e2' & Hp2' & HF).
+    rewrite Hp2 in Hp2'. injection Hp2' as <-.
+    induction HF as [|a b l l' [Hev Hv] HF [IH1 IH2]]; [split; reflexivity|]. cbn.
+    pose proof (f_equal (@ov_fuzzy T) Hev) as Hf. cbn in Hf. rewrite IH1, IH2, Hv, Hf. split; reflexivity.
+  Qed.
+End History.
+
+(* ---- restart and the store of engines (Model/Ops.v) *)
+Section Restart.
+  Context {T : Type} {N : Num T}.
+  Variable function_eval : engine T -> fnode T -> list (string * T) -> T -> result T.
+  Notation process := (process function_eval).
+  Notation step := (step function_eval).
+  Notation run := (run function_eval).
+
+  (* restart reads the structure only: two engines of the same structure are EQUAL after restart, whatever their
+     histories; in particular a restarted engine is the freshly built engine of that structure *)
+  Theorem restart_erases_history (e1 e2 : engine T) : same_structure e1 e2 -> restart e1 = restart e2.
+  Proof.
+    intros H. destruct (same_structure_parts _ _ H) as (Hn & Hi & Ho & Hb). unfold restart. rewrite Hn, Hb. f_equal.
+    - refine (map_eq_transfer iv_erase _ _ _ _ Hi). intros a b Hab.
+      destruct a, b; cbn in Hab; injection Hab; intros; subst; reflexivity.
+    - refine (map_eq_transfer ov_static _ _ _ _ Ho). intros a b Hab.
+      destruct a, b; cbn in Hab; injection Hab; intros; subst; reflexivity.
+  Qed.
+
+  Theorem restart_eq_fresh (e : engine T) : restart e = fresh e.
+  Proof. reflexivity. Qed.
+
+  Theorem restart_eq_fresh_of_structure (e1 e2 : engine T) : same_structure e1 e2 -> restart e1 = fresh e2.
+  Proof. intros H. unfold fresh. apply restart_erases_history, H. Qed.
+
+  Theorem restart_then_process_eq_fresh (e1 e2 : engine T) (xs : list T) :
+    same_structure e1 e2 -> process (set_inputs (restart e1) xs) = process (set_inputs (fresh e2) xs).
+  Proof. intros H. rewrite (restart_eq_fresh_of_structure e1 e2 H). reflexivity. Qed.
+
+  Lemma block_deactivated_idem (b : block T) : block_deactivated (block_deactivated b) = block_deactivated b.
+  Proof. unfold block_deactivated. cbn. rewrite map_map. reflexivity. Qed.
+
+  Theorem restart_idempotent (e : engine T) : restart (restart e) = restart e.
+  Proof.
+    unfold restart. cbn [e_name e_inputs e_outputs e_blocks]. rewrite !map_map. f_equal.
+    apply map_ext. intros b. apply block_deactivated_idem.
+  Qed.
+
+  Theorem restart_same_structure (e : engine T) : same_structure e (restart e).
+  Proof.
+    unfold same_structure, erase, restart. cbn [e_name e_inputs e_outputs e_blocks]. rewrite !map_map. f_equal.
+    symmetry. apply map_ext. intros b. apply block_deactivated_idem.
+  Qed.
+
+  (* what restart leaves: values nan through the clipping setter, previous values nan, fuzzy outputs empty,
+     stored degrees 0, triggered flags off *)
+  Definition restarted_state (e : engine T) : Prop :=
+    Forall (fun iv => iv_value iv = if iv_lock_range iv then clip (iv_min iv) (iv_max iv) nan else nan) (e_inputs e) /\
+    Forall (fun ov => ov_value ov = (if ov_lock_range ov then clip (ov_min ov) (ov_max ov) nan else nan) /\
+                      ov_previous ov = nan /\ ov_fuzzy ov = []) (e_outputs e) /\
+    Forall (fun b => Forall (fun r => r_degree r = zero /\ r_triggered r = false) (b_rules b)) (e_blocks e).
+
+  Theorem restart_state (e : engine T) : restarted_state (restart e).
+  Proof.
+    unfold restarted_state, restart. cbn [e_inputs e_outputs e_blocks]. repeat split.
+    - apply Forall_forall. intros iv Hin. apply in_map_iff in Hin. destruct Hin as (iv0 & <- & _). reflexivity.
+    - apply Forall_forall. intros ov Hin. apply in_map_iff in Hin. destruct Hin as (ov0 & <- & _). repeat split.
+    - apply Forall_forall. intros b Hin. apply in_map_iff in Hin. destruct Hin as (b0 & <- & _).
+      apply Forall_forall. intros r Hr. cbn in Hr. apply in_map_iff in Hr. destruct Hr as (r0 & <- & _). split; reflexivity.
+  Qed.
+
+  (* when clipping NaN gives NaN (numpy.clip; true of binary64, see Properties/C13.v) every value is NaN *)
+  Theorem restart_values_nan (e : engine T) : (forall lo hi : T, clip lo hi nan = nan) ->
+    Forall (fun iv => iv_value iv = nan) (e_inputs (restart e)) /\
+    Forall (fun ov => ov_value ov = nan /\ ov_previous ov = nan /\ ov_fuzzy ov = []) (e_outputs (restart e)).
+  Proof.
+    intros Hc. destruct (restart_state e) as (Hi & Ho & _). split.
+    - refine (Forall_impl _ _ Hi). intros iv ->. destruct (iv_lock_range iv); [apply Hc | reflexivity].
+    - refine (Forall_impl _ _ Ho). intros ov (-> & Hp & Hf). repeat split; try assumption.
+      destruct (ov_lock_range ov); [apply Hc | reflexivity].
+  Qed.
+
+  (* ---- the store: every operation touches the CURRENT engine only; a copy is appended and made current.
+     Engines are values, so this is true by construction of the model: that the Python object graphs of an engine and of
+     its deepcopy share no mutable object is NOT a theorem here — it is what the correspondence checks. *)
+  Lemma upd_frame (s s' : @store T) f k :
+    upd s f = Ok s' -> k <> snd s -> nth_error (fst s') k = nth_error (fst s) k /\ snd s' = snd s.
+  Proof.
+    unfold upd. destruct (nth_error (fst s) (snd s)) as [e|]; [|discriminate].
+    destruct (f e) as [e'|]; cbn [bind]; [|discriminate]. intros H Hk; injection H as <-. cbn [fst snd].
+    split; [apply nth_error_set_nth_neq; congruence | reflexivity].
+  Qed.
+
+  Lemma step_frame (s s' : @store T) (o : op) k e :
+    step s o = Ok s' -> nth_error (fst s) k = Some e -> snd s <> k -> o <> OSwitch k ->
+    nth_error (fst s') k = Some e /\ snd s' <> k.
+  Proof.
+    intros H Hk Hne Ho.
+    assert (Hupd : forall f, upd s f = Ok s' -> nth_error (fst s') k = Some e /\ snd s' <> k).
+    { intros f Hu. destruct (upd_frame s s' f k Hu (not_eq_sym Hne)) as (H1 & H2). rewrite H1, H2. auto. }
+    destruct o; cbn [Ops.step] in H; try (exact (Hupd _ H)).
+    - (* OCopy *) destruct (nth_error (fst s) (snd s)) as [e0|]; [|discriminate]. injection H as <-. cbn [fst snd].
+      pose proof (nth_error_lt _ _ _ Hk) as Hlt. split; [rewrite nth_error_app1 by exact Hlt; exact Hk | lia].
+    - (* OSwitch *) destruct (Nat.ltb k0 (length (fst s))); [|discriminate]. injection H as <-. cbn [fst snd].
+      split; [exact Hk | congruence].
+  Qed.
+
+  Theorem untouched_when_not_current : forall (ops : list op) (s : @store T) k e,
+    nth_error (fst s) k = Some e -> snd s <> k -> ~ In (OSwitch k) ops ->
+    Forall (fun r => match r with Ok s' => nth_error (fst s') k = Some e | Err _ => True end) (run s ops).
+  Proof.
+    induction ops as [|o ops IH]; intros s k e Hk Hne Hns; cbn [Ops.run]; [constructor|].
+    destruct (step s o) as [s'|x] eqn:Hs; [|constructor; [exact I | constructor]].
+    destruct (step_frame s s' o k e Hs Hk Hne) as (Hk' & Hne'); [intros ->; apply Hns; left; reflexivity|].
+    constructor; [exact Hk'|]. apply IH; [exact Hk' | exact Hne' | intros Hin; apply Hns; right; exact Hin].
+  Qed.
+
+  (* copy(): the copy is the same VALUE (so it produces identical results), it becomes the current engine, and whatever
+     is then done — to the copy, or to further copies — leaves the original's entry unchanged until the script switches
+     back to it; symmetrically, operating on the original afterwards never changes the copy
+     (untouched_when_not_current with k := the copy's index). *)
+  Theorem copy_independent_by_construction (s s1 : @store T) (ops : list op) e :
+    nth_error (fst s) (snd s) = Some e -> step s OCopy = Ok s1 ->
+    nth_error (fst s1) (snd s1) = Some e /\ snd s1 = length (fst s) /\
+    (~ In (OSwitch (snd s)) ops ->
+     Forall (fun r => match r with Ok s' => nth_error (fst s') (snd s) = Some e | Err _ => True end) (run s1 ops)).
+  Proof.
+    intros He Hc. cbn [Ops.step] in Hc. rewrite He in Hc. injection Hc as <-. cbn [fst snd].
+    pose proof (nth_error_lt _ _ _ He) as Hlt. split; [|split; [reflexivity|]].
+    - rewrite nth_error_app2 by lia. rewrite Nat.sub_diag. reflexivity.
+    - intros Hns. apply untouched_when_not_current; cbn [fst snd]; [|lia|exact Hns].
+      rewrite nth_error_app1 by exact Hlt. exact He.
+  Qed.
+End Restart.
+
+(* ================================================================================================ *)
+(* 7. the formula model plugged by the correspondence: no Function terms (evaluating one is a crash)  *)
+(* ================================================================================================ *)
+Definition fe0 {T : Type} : engine T -> fnode T -> list (string * T) -> T -> result T := fun _ _ _ _ => Err EInternal.
+Lemma fe0_ext {T : Type} : forall e1 e2 : engine T,
+  e_inputs e1 = e_inputs e2 -> e_outputs e1 = e_outputs e2 -> @fe0 T e1 = @fe0 T e2.
+Proof. reflexivity. Qed.
+Lemma fe0_no_output_values {T : Type} {N : Num T} : forall e1 e2 : engine T,
+  e_inputs e1 = e_inputs e2 -> map ov_static (e_outputs e1) = map ov_static (e_outputs e2) -> @fe0 T e1 = @fe0 T e2.
+Proof. reflexivity. Qed.
